@@ -136,6 +136,10 @@ CHECKS = {
                 J("tsanrun", "tsan", [], env=TSAN_ENV) + J("tsanrun", "tsan-locked", [], env=TSAN_ENV),
                 budget=dict(quick=200, thorough=3000),
                 rule="preemption-bounded exhaustive schedule exploration of the real code under a serialising scheduler (hooked lock/shared-access points + operation boundaries); see per-family rules. States/transitions report the number of complete schedules executed."),
+    "C15": dict(level="exploration", engine="cfgdigest", mode="digest_compare",
+                jobs=lambda t: J("cfgdigest", "prod-hsw", []) + J("cfgdigest", "prod-wsm", []) + J("cfgdigest", "prod-dyn", []) + J("cfgdigest", "asan-hsw", []) + J("cfgdigest", "asan-wsm", []) + J("cfgdigest", "asan-dyn", []),
+                budget=dict(quick=240, thorough=3000),
+                rule="differential across build configurations {static haswell, static westmere, runtime dispatch} x {production, ASan}: every case of the families gets a digest (accept/reject; parsed value and Dump() bytes; for failures outside string literals the error code; on-demand slice offset/length or error class for 8 paths; Serialize bytes of strings with every special byte at every position) and all six configurations must produce identical digests for every case. Error code/offset inside malformed string literals and all failure offsets are excluded, as the statement allows."),
 }
 
 
@@ -254,9 +258,46 @@ def write_replay(prop, job, tier, v, output):
     path = os.path.join(REPLAYS, "%s-%s.json" % (prop, key))
     rec = dict(property=prop, engine=job["engine"], config=job["config"], label=job["label"], tier=tier, args=job["args"], env=job["env"],
                family=v["family"], index=v["idx"], kind=v["kind"], cls=v["class"], input_hex=v.get("input_hex", ""), detail=v["detail"],
-               replay_output_tail=output[-3000:])
+               replay_output_tail=output[-3000:], ref_job=v.get("ref_job"))
     json.dump(rec, open(path, "w"), indent=1)
     return path
+
+
+def compare_digests(prop, tier, jobs, bins, dirs, class_counts):
+    """All configurations must have byte-identical digest files; report the first differing case per family and pair."""
+    out = []
+    ref_dir, ref_job = dirs[0], jobs[0]
+    for fn in sorted(os.listdir(ref_dir)):
+        fam = fn[:-4]
+        a = open(os.path.join(ref_dir, fn), "rb").read()
+        for d, job in zip(dirs[1:], jobs[1:]):
+            pth = os.path.join(d, fn)
+            b = open(pth, "rb").read() if os.path.exists(pth) else b""
+            if a == b:
+                continue
+            n = min(len(a), len(b)) // 8
+            # first differing index (chunked search)
+            idx = None
+            step = 1 << 16
+            for off in range(0, n * 8, step):
+                if a[off:off + step] != b[off:off + step]:
+                    for k in range(off, min(off + step, n * 8), 8):
+                        if a[k:k + 8] != b[k:k + 8]:
+                            idx = k // 8
+                            break
+                    break
+            if idx is None:
+                idx = n
+            ndiff = sum(1 for k in range(0, n * 8, 8) if a[k:k + 8] != b[k:k + 8]) if n < 40000000 else -1
+            da = replay_case(bins[(ref_job["engine"], ref_job["config"])], ref_job, tier, fam, idx)[1]
+            db = replay_case(bins[(job["engine"], job["config"])], job, tier, fam, idx)[1]
+            cls = "config_disagree"
+            class_counts[(job["label"], cls)] = class_counts.get((job["label"], cls), 0) + max(ndiff, 1)
+            out.append((job, dict(family=fam, idx=idx, kind="config_disagree", **{"class": cls}, input_hex="",
+                                  detail="configuration %s and %s disagree on %d case(s) of family %s; first at index %d: [%s] %s  vs  [%s] %s" %
+                                  (ref_job["label"], job["label"], ndiff, fam, idx, ref_job["label"], da.strip()[-700:], job["label"], db.strip()[-700:]),
+                                  no_replay=True, ref_job=dict(engine=ref_job["engine"], config=ref_job["config"], args=ref_job["args"], env=ref_job["env"], label=ref_job["label"]))))
+    return out
 
 
 def do_check(prop, tier):
@@ -274,8 +315,16 @@ def do_check(prop, tier):
     fam_rows = []
     violations = []   # (job, v)
     class_counts = {}
+    digest_dirs = []
     for ji, job in enumerate(jobs):
         outp = os.path.join(tmpdir, "%s-%s-%d-%d.json" % (prop, tier, ji, os.getpid()))
+        if spec.get("mode") == "digest_compare":
+            dd = os.path.join(tmpdir, "dig-%s-%d-%d" % (prop, ji, os.getpid()))
+            os.makedirs(dd, exist_ok=True)
+            digest_dirs.append(dd)
+            job = dict(job)
+            job["args"] = list(job["args"]) + ["--digest-dir", dd]
+            jobs[ji] = job
         res, dt = run_job(job, bins[(job["engine"], job["config"])], tier, per_job, outp)
         os.unlink(outp)
         for f in res["families"]:
@@ -291,13 +340,20 @@ def do_check(prop, tier):
     # confirm violations by replay, classify
     lines = []
     rc = 0
+    if spec.get("mode") == "digest_compare":
+        violations += compare_digests(prop, tier, jobs, bins, digest_dirs, class_counts)
+        for dd in digest_dirs:
+            shutil.rmtree(dd, ignore_errors=True)
     n_known = 0
     n_viol = 0
     seen_known = set()
     reported = set()
     for job, v in violations:
         k = match_known(prop, v["class"], known)
-        code, out = replay_case(bins[(job["engine"], job["config"])], job, tier, v["family"], v["idx"]) if v["idx"] != 18446744073709551615 else (1, "(crash outside a case)")
+        if v.get("no_replay"):
+            code, out = 1, v["detail"]
+        else:
+            code, out = replay_case(bins[(job["engine"], job["config"])], job, tier, v["family"], v["idx"]) if v["idx"] != 18446744073709551615 else (1, "(crash outside a case)")
         if code == 0:
             # replay must reproduce, otherwise this is a harness problem, not a verdict
             print("INTERNAL-ERROR property=%s violation did not reproduce on replay: %s %s idx=%s class=%s" % (prop, job["label"], v["family"], v["idx"], v["class"]))
@@ -361,6 +417,22 @@ def do_check(prop, tier):
 def do_replay(path):
     rec = json.load(open(path))
     job = dict(engine=rec["engine"], config=rec["config"], args=rec["args"], env=rec["env"], label=rec["label"])
+    if rec.get("ref_job"):
+        # differential replay: the same case in both configurations; digests must be identical
+        rj = rec["ref_job"]
+        strip = lambda a: [x for i, x in enumerate(a) if x != "--digest-dir" and (i == 0 or a[i - 1] != "--digest-dir")]
+        job["args"] = strip(job["args"])
+        rj["args"] = strip(rj["args"])
+        bins = build_many([(job["engine"], job["config"]), (rj["engine"], rj["config"])])
+        o1 = replay_case(bins[(job["engine"], job["config"])], job, rec["tier"], rec["family"], rec["index"])[1]
+        o2 = replay_case(bins[(rj["engine"], rj["config"])], rj, rec["tier"], rec["family"], rec["index"])[1]
+        d1 = [l for l in o1.splitlines() if l.startswith("DIGEST")]
+        d2 = [l for l in o2.splitlines() if l.startswith("DIGEST")]
+        print("[%s] %s" % (job["label"], d1))
+        print("[%s] %s" % (rj["label"], d2))
+        differ = d1 != d2
+        print("REPLAY exit=%d (non-zero: the two configurations still disagree on this case)" % (1 if differ else 0))
+        return 1 if differ else 0
     bins = build_many([(job["engine"], job["config"])])
     code, out = replay_case(bins[(job["engine"], job["config"])], job, rec["tier"], rec["family"], rec["index"])
     sys.stdout.write(out[-6000:])
